@@ -73,6 +73,16 @@ def configs(tier):
                         alphabet=dict(A, discard=False, terminate_job=False,
                                       put_faults=('exc',), next=True),
                         depth=d, max_states=40000 if not T else 400000))
+    # parts of several items: per-item owner bookkeeping of a finished part,
+    # with workers leaving between parts (recycling) or dying in one
+    mp4 = dict(kind='map', fn='tenfold', items=[1, 2, 3, 4], chunksize=2)
+    for nm, pk in (('map-chunks2', pool),
+                   ('map-chunks2/recycle', dict(pool, maxtasksperchild=1))):
+        out.append(dict(name='multi:' + nm, procs=2, jobs=[mp4], pool=pk,
+                        alphabet=dict(A, discard=False, terminate_job=False,
+                                      put_faults=(), die=(-9,),
+                                      die_idle=False),
+                        depth=d, max_states=40000 if not T else 400000))
     imr0 = dict(kind='imap', fn='tenfold', items=[1, 2], iter_raise_at=0)
     imr1 = dict(kind='imap_unordered', fn='tenfold', items=[1, 2],
                 iter_raise_at=1)
